@@ -272,7 +272,9 @@ func (k *checker) purposeReplay(sim *chain.Sim, rs *replayStats, nextSC func() i
 		{"input", func(t *types.V2Transaction, h types.Hash256) {
 			t.SiacoinInputs[0].SatisfiedPolicy.Signatures = []types.Signature{K.SK("A").SignHash(h)}
 		}},
-		{"contract", func(t *types.V2Transaction, h types.Hash256) { t.FileContracts[0].RenterSignature = K.SK("A").SignHash(h) }},
+		{"contract", func(t *types.V2Transaction, h types.Hash256) {
+			t.FileContracts[0].RenterSignature = K.SK("A").SignHash(h)
+		}},
 		{"attestation", func(t *types.V2Transaction, h types.Hash256) { t.Attestations[0].Signature = K.SK("A").SignHash(h) }},
 	}
 	for _, sl := range slots {
